@@ -26,7 +26,7 @@ EXPLANATION = ('Failure-atomicity and guard rules on the CFG of FeatureRef::appl
                'value from readFeats, a cast-chain typing rule on the setting comparison, copy-constructor use at the two clone sites, '
                'the language match, and the shared tag-normalisation rule.  How need_bits are packed into 32-bit chunks and which bytes '
                'a label has are value-level and not decided.')
-FLOORS = {'NOSTRADDLE': 3, 'FAILATOMIC': 6, 'READGUARD': 1, 'NOSETTINGS': 1, 'SETTINGZEXT': 1, 'CLONE': 3, 'LANGMATCH': 7, 'INDEXTESTS': 1, 'TAGNORM': 3, 'NARROWREAD': 1, 'LABELENC': 4}
+FLOORS = {'NOSTRADDLE': 3, 'FAILATOMIC': 6, 'READGUARD': 1, 'NOSETTINGS': 1, 'SETTINGZEXT': 1, 'CLONE': 3, 'LANGMATCH': 8, 'INDEXTESTS': 1, 'TAGNORM': 3, 'NARROWREAD': 1, 'LABELENC': 4}
 
 
 def failatomic(run, fx):
@@ -456,6 +456,41 @@ def maskexec(run, fx):
         run.broken('NOSTRADDLE', 'mask_over_val has no holes', 'no instantiation of graphite2::mask_over_val found')
 
 
+def inoutlang(run, fx):
+    """NameTable::getName takes the wanted language in `languageId` and answers the language found through the same reference.  The
+    request must be read before the answer is written: no read of that in/out parameter is reachable from a store to it (a reset to 0
+    at the top makes the same-primary-language fallback compare against 0, so fr-CA no longer finds fr-FR and the caller gets the
+    English string in all three encodings)."""
+    from .util import reaches_avoiding
+    fn = fx.one('graphite2::NameTable::getName')
+    ps = [p_ for p_ in fn.f['params'] if (p_.get('t') or '').rstrip().endswith('&') and 'short' in (p_.get('t') or '')]
+    n = 0
+    for p_ in ps:
+        refs = [e for _, e in fn.elements() if e['k'] == 'DeclRefExpr' and e.get('vid') == p_['vid']]
+        par = fn.parents()
+        stores, reads = [], []
+        for r in refs:
+            pp = [fn.N(x) for x in par.get(r['i'], [])]
+            st = [x for x in pp if x['k'] in ('BinaryOperator', 'CompoundAssignOperator') and x.get('op') == '=' and x['c'][0] == r['i']]
+            if st:
+                stores.append(st[0])
+            else:
+                reads.append(r)
+        if not stores or not reads:
+            continue
+        n += 1
+        inst = 'getName reads its in/out parameter %s before it writes it' % p_['n']
+        bad = [(s_, r) for s_ in stores for r in reads if reaches_avoiding(fn, s_, r, avoid=())]
+        if bad:
+            s_, r = bad[0]
+            run.violated('LANGMATCH', inst, fn.loc(r), '`%s` is overwritten at line %s and read again at line %s: the function compares with the value it has just written, not with the '
+                         'language the caller asked for' % (p_['n'], s_['ln'], r['ln']))
+        else:
+            run.held('LANGMATCH', inst, fn.where(), '%d read(s), none reachable from a store' % len(reads))
+    if n < 1:
+        run.broken('LANGMATCH', 'getName in/out language', 'the in/out language parameter of NameTable::getName was not recognised', fn.where())
+
+
 def langfresh(run, fx):
     """LANGMATCH, the table side: "the font's defaults overridden by the Sill entry of that language".  In SillMap::readSill every
     applyValToFeature() writes into an object that was created from m_defaultFeatures inside the same iteration of the language loop
@@ -510,6 +545,7 @@ def langfresh(run, fx):
 def run(run):
     fx = run.facts('Q0')
     maskexec(run, fx)
+    inoutlang(run, fx)
     langfresh(run, fx)
     from . import ordint as O_
     cf_ = fx.one('graphite2::SillMap::cloneFeatures')
